@@ -1,7 +1,8 @@
 package main
 
 func init() {
-	props["C05"] = &propImpl{files: []string{"h_lib.go", "h_pipe.go", "h_corpus.go", "h_units.go"}, run: runC05}
+	props["C05"] = &propImpl{files: []string{"h_lib.go", "h_pipe.go", "h_corpus.go", "h_units.go"}, run: runC05,
+		fallbackFiles: []string{"h_lib.go", "h_pipe.go", "h_corpus.go"}, hooks: []string{"internal/scanner", "internal/position", "pkg/token", "pkg/position"}, fallbackRun: runC05}
 	props["C08"] = &propImpl{files: []string{"h_lib.go", "h_pipe.go", "h_corpus.go"}, run: runC08}
 	props["C10"] = &propImpl{files: []string{"h_lib.go", "h_pipe.go", "h_corpus.go"}, run: runC10}
 }
